@@ -164,7 +164,7 @@ def find_send_queue(srv):
     """the outbound queue of the server's sender: by its private path in the current source, or, if a refactoring
     renamed the attributes, the one real queue.Queue reachable from the server object within three hops"""
     try:
-        return srv._request_manager._reply_sender._send_queue
+        return find_request_manager(srv)._reply_sender._send_queue
     except AttributeError:
         pass
     seen, frontier = set(), [srv]
@@ -184,7 +184,7 @@ def find_send_queue(srv):
 def find_sender(srv):
     """the server's _Sender object (private path of the current source, or by class within two hops)"""
     try:
-        return srv._request_manager._reply_sender
+        return find_request_manager(srv)._reply_sender
     except AttributeError:
         pass
     import lightstreamer_adapter.server as server
@@ -215,6 +215,57 @@ def sender_queue(snd):
         if hasattr(v, 'put') and hasattr(v, 'get') and not isinstance(v, (str, bytes)):
             return v
     raise AttributeError('no queue found on the sender object')
+
+
+def find_request_manager(srv):
+    rm = getattr(srv, '_request_manager', None)
+    if rm is not None:
+        return rm
+    import lightstreamer_adapter.server as server
+    cls = getattr(server, '_RequestManager', None)
+    for v in _attrs(srv):
+        if cls is not None and isinstance(v, cls):
+            return v
+    return None
+
+
+def find_stop_event(rm):
+    """the 'stop reading' Event of the request manager (whatever it is called)"""
+    import threading
+    ev = getattr(rm, '_stop_request', None)
+    if ev is not None:
+        return ev
+    for v in _attrs(rm):
+        if isinstance(v, threading.Event):
+            return v
+    raise AttributeError('no stop Event found on the request manager')
+
+
+UNAVAILABLE = object()
+
+
+def close_expected(srv):
+    """Server._close_expected, or UNAVAILABLE when a refactoring renamed it beyond recognition"""
+    if hasattr(srv, '_close_expected'):
+        return srv._close_expected
+    cands = [k for k, v in vars(srv).items() if isinstance(v, bool) and 'close' in k.lower()]
+    if len(cands) == 1:
+        return getattr(srv, cands[0])
+    return UNAVAILABLE
+
+
+def reader_entry(srv):
+    """the reader loop of the request manager as a callable(sock): _RequestManager._do_run, or (renamed) the target of the
+    receiver thread the request manager created (threads are inert under fixture.patched)"""
+    rm = find_request_manager(srv)
+    fn = getattr(rm, '_do_run', None)
+    if fn is not None:
+        return fn
+    for t in InertThread.registry:
+        tgt = getattr(t, 'target', None)
+        if tgt is not None and getattr(tgt, '__self__', None) is rm:
+            return tgt
+    raise AttributeError('no reader loop found on the request manager')
 
 
 def find_executor(srv):
